@@ -240,8 +240,19 @@ def _measured_keys():
         k += ["measured:%s:%s:%d" % (kind, i, t) for i in idxs for t in TARGETS]
     k += ["measured:%s:%s:%d" % (kind, i, t) for t in SMALL for kind, i in
           (("cff", "name"), ("cff", "top"), ("cid", "top"), ("cid", "fdarray"), ("cff2", "name"), ("cff2", "string"))]
-    k += ["measured:glyf:131070:short-loca"] + ["measured:glyf:%d:long-loca" % t for t in range(131069, 131074)]
     return k
+
+
+def _measured_glyf_missing(tally):
+    """glyf outputs around the short-loca limit: padding and the loca format of the output are the implementation's choice,
+    so no exact length is demanded - only that output tables on both sides of 131070 bytes were seen."""
+    lens = sorted(int(k.split(":")[2]) for k in tally if k.startswith("measured:glyf:") and k.split(":")[2].isdigit())
+    out = []
+    if not any(n <= 131070 for n in lens):
+        out.append("recording:measured:glyf:an output glyf table of at most 131070 bytes next to the limit")
+    if not any(n > 131070 for n in lens):
+        out.append("recording:measured:glyf:an output glyf table of more than 131070 bytes")
+    return out
 
 
 def _container(case):
@@ -316,7 +327,9 @@ def _selfcheck_replay(ctx, binp, cases_path, families=3):
         for ln in f:
             c = json.loads(ln)
             # the first requested glyph after .notdef... some requested glyph is a composite with a transform and instructions
+            # (a source with an unsorted table directory may be refused by a conformant implementation: not for the self-check)
             if c["exp"]["n"] > len(c["req"]) and c["nhm"] < c["n"] and all(g["comp"] != c["comp"] for g in goods) \
+                    and c.get("rep", {}).get("dir", "sorted") == "sorted" \
                     and any(e[3][0] and e[3][1] and any(p[3] for p in e[3][0]) for e in c["exp"]["head"]):
                 goods.append(c)
                 if len(goods) >= families:
@@ -576,6 +589,8 @@ def _run(ctx, found, cov):
             # decided at the end: on a broken tree (subset calls that panic or fail) a family may be missing BECAUSE of
             # the defect, which is then reported as a violation; without such a violation it is a tool error
             vacuous.append("recording:" + k)
+
+    vacuous += _measured_glyf_missing(tally)
 
     planted, fams = _plant_trace(rec_trace)
     trace = ctx.path("trace.ndjson")
